@@ -268,7 +268,7 @@ func (cs *ContractSet) parseFile(path, pkgPath string) error {
 					if err != nil {
 						return fail(err)
 					}
-					key = "extern#" + fc.RecvType + "." + fc.Name // e.g. big.Int.SetString
+					key = "extern#" + pkgPath + "#" + fc.RecvType + "." + fc.Name // e.g. big.Int.SetString (scoped to the contract file's package)
 					fc.IsIface = false
 					fc.File, fc.PkgPath, fc.Line, fc.Trusted, fc.Extern = path, pkgPath, rc.line, true, true
 					cs.Funcs[key] = fc
@@ -285,7 +285,7 @@ func (cs *ContractSet) parseFile(path, pkgPath string) error {
 				if err != nil {
 					return fail(err)
 				}
-				key = "extern#" + pkgName + "." + fc.Name
+				key = "extern#" + pkgPath + "#" + pkgName + "." + fc.Name
 				fc.File, fc.PkgPath, fc.Line, fc.Trusted, fc.Extern = path, pkgPath, rc.line, true, true
 				cs.Funcs[key] = fc
 				curF = fc
